@@ -177,3 +177,7 @@ CLAUSES.append(
     Clause("long_words", long_cases, run_long, quick=60, thorough=600, watchdog=300,
            rule="structured PDAs (templates with one noise transition, renamed) x words of length 6..28 shaped like a^n b^n, a^n b, a^n b^m, palindromes, plus random "
                 "words x limits {60, 200, 1000}; sound always, complete when the closures stay within the limit; non-trivial: a long word accepted within the limit"))
+
+# coverage-guided second driver (atheris / libFuzzer through Hypothesis' fuzz_one_input) for the core clauses: (clause, quick runs, thorough runs)
+from harness.covfuzz import cov_clauses  # noqa: E402
+CLAUSES += cov_clauses('C09', CLAUSES, [('accepts', 1500, 30000)])
